@@ -6,7 +6,7 @@
 // timeout, so a run is a deterministic function of the input line. The totally ordered event log is
 // judged by the Lean driver (GB.C11.handle): specification predicates + replay through the LTS.
 //
-// input : <P|S|F> <threads> <schedule>      (F = service router, also parking inside its per-service loops)
+// input : <P|S|F|M> <threads> <schedule>      (F = service router, also parking inside its per-service loops)
 //
 //	threads  = thread;thread;…      thread = op,op,…
 //	op       = W<name>.<slot> | U<slot>.<name>.<ver>.<svcs> | C<slot> | L<svc>     (svcs: digits or "-")
@@ -89,6 +89,7 @@ type slotState struct {
 
 type run struct {
 	svc     bool
+	multi   bool // input kind M: pattern router, services with an even number are bound to GET (two per-method tables)
 	fine    bool // input kind F: park at the per-iteration yield points inside the service-router loops too
 	pr      *routing.PatternRouter
 	sr      *routing.ServiceRouter
@@ -169,6 +170,9 @@ func (r *run) mkDesc(o op) *bridgedesc.Target {
 			Name:    protoName(k),
 			Methods: []bridgedesc.Method{{RPCName: fmt.Sprintf("/pkg.S%d/M", k)}},
 		}
+		if r.multi && k%2 == 0 {
+			d.Services[i].Methods[0].Bindings = []bridgedesc.Binding{{HTTPMethod: http.MethodGet, Pattern: fmt.Sprintf("/pkg.S%d/M", k), RequestBodyPath: "*"}}
+		}
 	}
 	r.mu.Lock()
 	r.tgtVer[d] = o.ver
@@ -242,7 +246,11 @@ func (r *run) doOp(w *worker, o op) string {
 			}
 			tgt, svc = route.Target, route.Service
 		} else {
-			_, route, err := r.pr.RouteHTTP(&http.Request{Method: http.MethodPost, URL: &url.URL{Path: fmt.Sprintf("/pkg.S%d/M", o.key)}})
+			hm := http.MethodPost
+			if r.multi && o.key%2 == 0 {
+				hm = http.MethodGet
+			}
+			_, route, err := r.pr.RouteHTTP(&http.Request{Method: hm, URL: &url.URL{Path: fmt.Sprintf("/pkg.S%d/M", o.key)}})
 			if err != nil {
 				return fmt.Sprintf("e.%d.m", t)
 			}
@@ -435,7 +443,7 @@ func (Area) Exec(input string) string {
 	if len(f) > 0 && f[0] == "stress" {
 		return execStress(f)
 	}
-	if len(f) < 2 || (f[0] != "P" && f[0] != "S" && f[0] != "F") {
+	if len(f) < 2 || (f[0] != "P" && f[0] != "S" && f[0] != "F" && f[0] != "M") {
 		return "BADINPUT"
 	}
 	sched := ""
@@ -445,7 +453,7 @@ func (Area) Exec(input string) string {
 	execMu.Lock()
 	defer execMu.Unlock()
 
-	r := &run{svc: f[0] != "P", fine: f[0] == "F", tgtVer: map[*bridgedesc.Target]int{}, svcVer: map[*bridgedesc.Service]int{}, mthVer: map[*bridgedesc.Method]int{}}
+	r := &run{svc: f[0] == "S" || f[0] == "F", fine: f[0] == "F", multi: f[0] == "M", tgtVer: map[*bridgedesc.Target]int{}, svcVer: map[*bridgedesc.Service]int{}, mthVer: map[*bridgedesc.Method]int{}}
 	if r.svc {
 		r.sr = routing.NewServiceRouter(pool{}, routing.ServiceRouterOpts{})
 	} else {
@@ -671,6 +679,23 @@ func (Area) Gen(r *rand.Rand, tier string, emit func(string)) {
 			enumSchedules("444444444444", "0123", nf-1, func(s string) { count("exhaustive-fine-handover"); emit(sc + " " + s) })
 		}
 	}
+	// PER-METHOD family (input kind M = pattern router, even services bound to GET, odd ones default POST: two
+	// per-method lists with their own insertion orders; replayed through the lockstep per-method LTS)
+	{
+		// A joins the GET list after B: GET order [B, A], POST order [A, B]
+		emit("M W0.0,U0.0.1.1,W1.1,U1.1.2.12,U0.0.3.12,L2,L1;L2,L1 0000000000001111")
+		// A drops its GET routes and re-adds them: pushed to the back of the GET list only
+		emit("M W0.0,U0.0.1.12,W1.1,U1.1.2.12,L2,L1,U0.0.3.1,L2,L1,U0.0.4.12,L2,L1;L2,L1 00000000000000000000000001111")
+		// a lookup parked between its single snapshot load and the iteration while the other method's table changes
+		emit("M W0.0,U0.0.1.12;L1,L2,L1,L2;U0.0.2.14,U0.0.3.23,C0 00011222112221111")
+		emit("M W0.0,U0.0.1.12,W1.1,U1.1.2.24;L2,L4,L2;C0;U1.1.3.2 000000112213311")
+		nm := 5
+		if thorough {
+			nm = 7
+		}
+		sc := "M U0.0.2.14;C0;L1,L2,L4;W1.1,U1.1.3.12,L2;W0.0,U0.0.1.12"
+		enumSchedules("444", "0123", nm, func(s string) { count("exhaustive-methods"); emit(sc + " " + s) })
+	}
 	for _, k := range []string{"P", "S"} {
 		// the D11 schedule: update passes the closed check and parks, Close runs, update resumes, lookup, re-watch
 		emit(k + " W0.0;U0.0.1.12;C0;L1,W0.1,L1 0122133333")
@@ -713,11 +738,13 @@ func (Area) Gen(r *rand.Rand, tier string, emit func(string)) {
 
 func randomScenario(r *rand.Rand) string {
 	kind := "P"
-	switch r.Intn(3) {
+	switch r.Intn(4) {
 	case 0:
 		kind = "S"
 	case 1:
 		kind = "F" // service router, parking inside the per-service loops as well
+	case 2:
+		kind = "M" // pattern router with two HTTP methods
 	}
 	nth := 2 + r.Intn(4)
 	ver := 0
